@@ -348,4 +348,53 @@ theorem tls13_rfc_instance (hus : ∀ e ∈ evs13.map CEv.cap, e.us < 2 ^ 64) :
   rw [e1, e2] at h
   exact h
 
+/-! ### why `OnlySecret` is a hypothesis: a second, different secret under the same label and client random
+
+The key-log file CONTAINS the connection's line(s) in all four cases; which of two contradicting lines the tool uses depends on
+the protocol version (replayed on the real tool: `harness/c01_rfc_replay.py`). -/
+
+/-- `CLIENT_RANDOM <cr0> 06…06`: not the master secret of the connection -/
+def wrongLine : FLine × Bool :=
+  (.key ⟨Keylog.s_CLIENT_RANDOM, crN, List.replicate 48 6⟩ (Keylog.hexOf crN) (Keylog.hexOf (List.replicate 48 6)), false)
+
+def payloads (o : Option (List Pipeline.OutPkt)) : Option (List Bytes) := o.map fun l => l.map (·.payload)
+
+/-- SSL 3.0 – TLS 1.2: the FIRST `CLIENT_RANDOM` line wins. With the wrong line in front nothing is exported although the
+    right line is in the file; with the wrong line behind the conversation is exported. -/
+theorem first_line_wins_12 :
+    HasLine (wrongLine :: ls0) labelClientRandom (Pipeline.natsOfBytes t0.ch.random) (Pipeline.natsOfBytes ms0) ∧
+    ¬ OnlySecret (wrongLine :: ls0) labelClientRandom (Pipeline.natsOfBytes t0.ch.random) (Pipeline.natsOfBytes ms0) ∧
+    Pipeline.connOut hashes Cipher.Toy.prims (capInfo (evs0.map CEv.cap)) sess0
+      ((fileKeysOf (some (C09Found.fileText (wrongLine :: ls0)))).getD []) = some [] ∧
+    payloads (Pipeline.connOut hashes Cipher.Toy.prims (capInfo (evs0.map CEv.cap)) sess0
+      ((fileKeysOf (some (C09Found.fileText (ls0 ++ [wrongLine])))).getD [])) =
+        some [[], [], [], hi, [], k16.take 8, [], k16.drop 8, []] := by
+  have htr : tr0 = ⟨labelClientRandom, Pipeline.natsOfBytes t0.ch.random, Pipeline.natsOfBytes ms0⟩ := by decide +kernel
+  refine ⟨⟨hcU, Keylog.hexOf (List.replicate 48 5), true, by rw [← htr]; simp [ls0]⟩, ?_, by decide +kernel, by decide +kernel⟩
+  intro h
+  have := h _ _ _ _ (List.mem_cons_self : wrongLine ∈ wrongLine :: ls0) (by decide) (by decide)
+  revert this
+  decide
+
+/-- TLS 1.3: the LAST line per label wins. With a wrong SERVER_TRAFFIC_SECRET_0 line behind the right one the server's
+    application data is not exported although the right line is in the file; with the wrong line in front it is. -/
+theorem last_line_wins_13 :
+    HasLine (ls13 ++ [lineOf labelSTS0 9 false false]) labelSTS0 (Pipeline.natsOfBytes t13.ch.random)
+      (Pipeline.natsOfBytes sats) ∧
+    ¬ OnlySecret (ls13 ++ [lineOf labelSTS0 9 false false]) labelSTS0 (Pipeline.natsOfBytes t13.ch.random)
+      (Pipeline.natsOfBytes sats) ∧
+    payloads (Pipeline.connOut hashes Cipher.Toy.prims (capInfo (evs13.map CEv.cap)) sess13
+      ((fileKeysOf (some (C09Found.fileText (ls13 ++ [lineOf labelSTS0 9 false false])))).getD [])) =
+        some [[], [], [], hi, []] ∧
+    payloads (Pipeline.connOut hashes Cipher.Toy.prims (capInfo (evs13.map CEv.cap)) sess13
+      ((fileKeysOf (some (C09Found.fileText (lineOf labelSTS0 9 false false :: ls13)))).getD [])) =
+        some [[], [], [], hi, [], k16, []] := by
+  refine ⟨?_, ?_, by decide +kernel, by decide +kernel⟩
+  · obtain ⟨hc, hv, crlf, hm⟩ := hasLine13 labelSTS0 4 false true (by simp [ls13]) sats (by decide)
+    exact ⟨hc, hv, crlf, List.mem_append_left _ hm⟩
+  · intro h
+    have := h (trOf labelSTS0 9) _ _ false (List.mem_append_right _ (List.mem_singleton.mpr rfl)) rfl rfl
+    revert this
+    decide
+
 end TLX.Props.C01Rfc.Ex
